@@ -448,7 +448,20 @@ func retErrVal(r *ssa.Return) ssa.Value {
 	if i < 0 || i >= len(r.Results) {
 		return nil
 	}
-	return r.Results[i]
+	return unspill(r.Results[i])
+}
+
+// unspill resolves the defer-spilled form of a result: a load of a local
+// alloc whose value was stored earlier in the same block.
+func unspill(v ssa.Value) ssa.Value {
+	if u, ok := v.(*ssa.UnOp); ok && u.Op == token.MUL {
+		if al, ok := u.X.(*ssa.Alloc); ok {
+			if sv := reachingStore(al, u); sv != nil {
+				return sv
+			}
+		}
+	}
+	return v
 }
 
 // mayBeNil: could value v be a nil error? (conservative: true unless provably non-nil)
@@ -705,4 +718,51 @@ func (c *Cut) Clone() *Cut {
 		n.Edges[k] = true
 	}
 	return n
+}
+
+// HeldCond is a branch condition known to have polarity Pol at some instruction.
+type HeldCond struct {
+	Cond ssa.Value
+	Pol  bool
+}
+
+// heldCondVals is heldConds with the SSA values.
+func heldCondVals(a ssa.Instruction) []HeldCond {
+	var out []HeldCond
+	fn := a.Parent()
+	ab := a.Block()
+	for _, b := range fn.Blocks {
+		iff := lastIfOf(b)
+		if iff == nil {
+			continue
+		}
+		for si, s := range b.Succs {
+			if len(s.Preds) == 1 && s.Dominates(ab) {
+				out = append(out, HeldCond{iff.Cond, si == 0})
+			}
+		}
+	}
+	return out
+}
+
+func lastIfOf(b *ssa.BasicBlock) *ssa.If {
+	if len(b.Instrs) == 0 {
+		return nil
+	}
+	i, _ := b.Instrs[len(b.Instrs)-1].(*ssa.If)
+	return i
+}
+
+// lookupOf: if v is a map lookup result (plain or the ok of comma-ok, or the
+// value of a bool-valued map), returns the Lookup.
+func lookupOf(v ssa.Value) *ssa.Lookup {
+	switch x := v.(type) {
+	case *ssa.Lookup:
+		return x
+	case *ssa.Extract:
+		if l, ok := x.Tuple.(*ssa.Lookup); ok {
+			return l
+		}
+	}
+	return nil
 }
